@@ -15,6 +15,13 @@ Tie (every run):
     names, old names (every declared one, both orders with the new name), expiry dates and collisions on
     generated registries (Settings.modified(newSettings={name: Setting(..., oldNames=...)})).
   * modified(): copies vs originals, histories of assignments through either.
+  * copies (run_copies): histories assign / load -> revertToDefault / changeDefault -> copy by modified / duplicate / deepcopy /
+    pickle (copies of copies) -> WRITE THE COPY in each style -> read back; `isDefault`/`offDefault` against value == default on
+    every object; the model follows the same history (copyReg = Settings.__setstate__, revert, changeDefault).
+  * boundaries (run_boundaries): every setting x near-miss values at its type / range / option boundaries (fractions between a
+    bound and the next integer, raw forms that differ from their coerced form, zeros, tiny numbers, lists with one bad element)
+    through assignment and through a file; an ACCEPTED value must be written and read back equal and satisfy its own schema;
+    numeric schemas All(Coerce, Range) are compared value by value with the Lean numSchema (coerce, then validate).
 Implementation-side oracle: the property clauses evaluated on the real objects (value equality per setting
 after the round trip, key sets per style, rejected values leave the previous value, renames land on the new
 name, copies are isolated including their mutable values).
@@ -31,9 +38,11 @@ from harness import common
 from harness.common import Failure, lean_run
 
 PROP_MODULES = ["ArmiVerif.Props.C17"]
-PARTIAL = ("the theorems carry the style / rename / invalid / copy logic; YAML formatting (ruamel) and schema "
+PARTIAL = ("the theorems carry the style / rename / invalid / copy logic for every reachable settings object (any history of "
+           "assign / revert / changeDefault / copy / modified); YAML formatting (ruamel) and schema "
            "coercion (voluptuous) of each setting enter as the hypothesis schema n (dump n v) = some v, which is "
-           "tested per setting and value here, not proved; the `versions` setting is stamped with the armi version "
+           "proved for the numeric All(Coerce(int|float), Range) schemas (numSchema_fixpoint) and tested per setting and value "
+           "for the others; the `versions` setting is stamped with the armi version "
            "by the writer and is exempt from value equality (the model states the stamp)")
 ASSUMPTIONS = [
     "ruamel.yaml dump/load and voluptuous schemas are parameters of the model (contract load(dump v) = v per "
@@ -1116,6 +1125,541 @@ def run_modified(ctx, cs0, ref):
 SIMPLE_GUARDED = set()
 
 
+# --------------------------------------------------------------------------- near-miss values at type / coercion boundaries
+def schema_facts(node, acc=None):
+    """(ranges, options, coerced types, is-a-list) found in a voluptuous schema by introspection."""
+    import voluptuous as vol
+    acc = acc if acc is not None else {"ranges": [], "options": [], "types": [], "list": False, "lengths": []}
+    if isinstance(node, vol.Schema):
+        schema_facts(node.schema, acc)
+    elif isinstance(node, (vol.All, vol.Any)):
+        for v in node.validators:
+            schema_facts(v, acc)
+    elif isinstance(node, vol.Range):
+        acc["ranges"].append(node)
+    elif isinstance(node, vol.In):
+        acc["options"] += list(node.container)
+    elif isinstance(node, vol.Coerce):
+        acc["types"].append(node.type)
+    elif isinstance(node, vol.Length):
+        acc["lengths"].append(node)
+    elif isinstance(node, list):
+        acc["list"] = True
+        for v in node:
+            schema_facts(v, acc)
+    elif isinstance(node, type):
+        acc["types"].append(node)
+    return acc
+
+
+def boundary_scalars(facts, default):
+    """Numbers and near-numbers around every bound of the schema and around the coercion boundaries of its types: just
+    inside / outside each bound, fractions strictly between a bound and the next integer, raw forms that differ from their
+    coerced form (1.0 vs 1, "3", 2.9999, True), zeros of every kind, denormal-small numbers."""
+    import math
+    out = [0, 1, -1, 0.0, -0.0, 1.0, 0.5, 0.25, 0.75, 0.999999, 1e-300, -1e-300, 2.9999, 3, "3", "0", "0.5", "1.0", True, False,
+           None, "", "abc", 1e300, -0.5, 1.5, " 2 ", "1e-3", 1e-3]
+    bounds = []
+    for r in facts["ranges"]:
+        for b in (r.min, r.max):
+            if b is not None:
+                bounds.append(b)
+    if isinstance(default, (int, float)) and not isinstance(default, bool):
+        bounds.append(default)
+    for b in bounds:
+        fb = float(b)
+        out += [b, fb, int(fb) if fb == int(fb) else fb, b - 1, b + 1, fb + 0.5, fb - 0.5, fb + 0.25, fb - 0.25, fb + 0.999, fb - 0.999,
+                math.nextafter(fb, math.inf), math.nextafter(fb, -math.inf), fb + 1e-9, fb - 1e-9, str(b), str(fb + 0.5), repr(fb)]
+    for o in facts["options"]:
+        out.append(o)
+        if isinstance(o, str):
+            out += [o.upper(), o.lower(), o + " ", " " + o, o[:-1], o + "x"]
+        elif isinstance(o, (int, float)) and not isinstance(o, bool):
+            out += [float(o), str(o), o + 0.5, o + 1e-9]
+    seen, uniq = set(), []
+    for v in out:
+        k = (type(v).__name__, repr(v))
+        if k not in seen:
+            seen.add(k)
+            uniq.append(v)
+    return uniq
+
+
+def _accepts(schema, x):
+    try:
+        schema(x)
+        return True
+    except Exception:
+        return False
+
+
+def numeric_schema_correspondence(ctx, ref, names):
+    """Settings whose schema is (a list of / an optional) All(Coerce(int|float), Range(...)): the real schema object against the
+    Lean `numSchema` (coerce, THEN validate) on ints, finite floats and bools around every bound - function level, value and
+    type of the stored number included. The model is built from the setting's type and range, not from the order of the
+    validators inside the schema object."""
+    import math
+    import voluptuous as vol
+
+    def numeric_node(node):
+        """(element validator, type, Range) when node is All(Coerce(T), Range) possibly inside Schema / [..] / Any(None, ..)"""
+        if isinstance(node, vol.Schema):
+            return numeric_node(node.schema)
+        if isinstance(node, list) and len(node) == 1:
+            return numeric_node(node[0])
+        if isinstance(node, vol.Any):
+            subs = [v for v in node.validators if v is not None]
+            return numeric_node(subs[0]) if len(subs) == 1 else None
+        if isinstance(node, vol.All):
+            co = [v for v in node.validators if isinstance(v, vol.Coerce)]
+            rg = [v for v in node.validators if isinstance(v, vol.Range)]
+            if len(co) == 1 and len(rg) == 1 and len(node.validators) == 2 and co[0].type in (int, float):
+                return node, co[0].type, rg[0]
+        return None
+
+    req, exp, cases = [], [], []
+    covered = []
+    for n in names:
+        found = numeric_node(ref[n].schema)
+        if not found:
+            continue
+        node, typ, rg = found
+        covered.append(n)
+        elem = vol.Schema(node)
+        raws = [x for x in boundary_scalars({"ranges": [rg], "options": []}, None)
+                if isinstance(x, (bool, int, float)) and not (isinstance(x, float) and (math.isnan(x) or math.isinf(x))) and abs(x) < 1e200]
+        for x in raws:
+            try:
+                v = elem(x)
+                got = ("i:" + str(v)) if type(v) is int else ("f:" + str(common.rat(v))) if type(v) is float else f"?{type(v).__name__}"
+            except Exception:
+                got = "x"
+            tok = ("b:" + ("T" if x else "F")) if isinstance(x, bool) else ("i:" + str(x)) if isinstance(x, int) else ("f:" + str(common.rat(x)))
+            q = lambda b: "_" if b is None else str(common.rat(float(b)) if isinstance(b, float) else b)
+            req.append(f"numsch {'int' if typ is int else 'float'} {q(rg.min)} {q(rg.max)} {'T' if rg.min_included else 'F'} {'T' if rg.max_included else 'F'} {tok}")
+            exp.append(got)
+            cases.append({"setting": n, "raw": repr(x), "type": typ.__name__, "range": [rg.min, rg.max, rg.min_included, rg.max_included]})
+            ctx.count("numeric schema values " + ("accepted" if got != "x" else "refused"))
+            ctx.case(("numsch", n, type(x).__name__, repr(x)), nontrivial=True)
+        top = ref[n].schema.schema if isinstance(ref[n].schema, vol.Schema) else ref[n].schema
+        if isinstance(top, list):
+            # the list schema as a whole: lists with one bad element among good ones, at every position
+            tokof = lambda x: ("b:" + ("T" if x else "F")) if isinstance(x, bool) else ("i:" + str(x)) if isinstance(x, int) else ("f:" + str(common.rat(x)))
+            goods = [x for x in raws if not isinstance(x, bool) and _accepts(elem, x)][:6] or [1]
+            rng = ctx.rng
+            lists = [[], [0.25, 10, 20], [10, 0.5, 20], [10, 20, 0.75]]
+            for x in raws:
+                k = rng.randint(0, 2)
+                l = [rng.choice(goods) for _ in range(rng.randint(1, 3))]
+                l.insert(min(k, len(l)), x)
+                lists.append(l)
+            for l in lists:
+                try:
+                    v = ref[n].schema(copy.deepcopy(l))
+                    got = "[" + ",".join(("i:" + str(e)) if type(e) is int else ("f:" + str(common.rat(e))) if type(e) is float else "?" for e in v) + "]"
+                except Exception:
+                    got = "x"
+                q = lambda b: "_" if b is None else str(common.rat(float(b)) if isinstance(b, float) else b)
+                req.append(f"numlist {'int' if typ is int else 'float'} {q(rg.min)} {q(rg.max)} {'T' if rg.min_included else 'F'} {'T' if rg.max_included else 'F'} [" + ",".join(tokof(e) for e in l) + "]")
+                exp.append(got)
+                cases.append({"setting": n, "raw": repr(l), "type": typ.__name__, "range": [rg.min, rg.max, rg.min_included, rg.max_included]})
+                ctx.count("numeric list schema values " + ("accepted" if got != "x" else "refused"))
+                ctx.case(("numlist", n, repr(l)), nontrivial=True)
+    ctx.extra["numeric_schema_settings"] = covered
+    out = lean_run("Settings", ["new"] + req)[1:]
+    for r, e, c, o in zip(req, exp, cases, out):
+        if o == "bad-op":
+            raise common.Infra(f"Settings driver: bad-op for {r}")
+        if o != e:
+            ctx.disagree("Settings model (numSchema: coerce, then validate) vs the setting's schema", {"request": r, "case": c}, o, e)
+            # the oracle's view of the same value: what the setting accepted must be re-admitted by it
+            if e != "x":
+                ctx.fail(f"accepted-value-violates-own-schema:{c['setting']}", "values that violate a setting's schema are rejected "
+                         "(a value outside the range after coercion was accepted)", c, observed=e, expected="rejected" if o == "x" else o)
+    ctx.count("model lines (numeric schemas)", len(req))
+
+
+def run_boundaries(ctx, cs0, ref):
+    """Every setting x near-miss values at its type / range / option boundaries, through assignment AND through a settings
+    file. Clauses (none of them takes the schema's verdict for granted):
+      * a refused value leaves the previous value in place;
+      * an ACCEPTED value is one the setting can hold: the settings object now written (short style) reads back without error
+        to the same value - an accepted value that cannot be read back should have been rejected;
+      * assignment and reading agree on accept / refuse for the same YAML-representable raw value."""
+    from armi import settings
+    rng = ctx.rng
+    names = [n for n, _ in cs0.items() if n not in ("versions", "userPlugins") + VERBOSITY_FAMILY]
+    cs = settings.Settings()
+    fresh = state_map(cs)
+    budget = ctx.pick(18, 80)
+    numeric_schema_correspondence(ctx, ref, names)
+    for n in names:
+        st = ref[n]
+        facts = schema_facts(st.schema)
+        scal = boundary_scalars(facts, st.default if not isinstance(st.default, list) else (st.default[0] if st.default else None))
+        pointed = bool(facts["ranges"] or facts["options"])
+        if isinstance(st.default, list) or facts["list"]:
+            good = [x for x in (st.default if isinstance(st.default, list) else []) if schema_of(st, [x])[0]] or \
+                   [x for x in scal if schema_of(st, [x])[0]][:3] or [1]
+            g = lambda: copy.deepcopy(rng.choice(good))
+            raws = [[x, 10, 20] for x in (0.25, 0.5, -0.5, "x", None)] + [[10, 0.5, 20], [10, 20, 0.75]] + [[x] for x in scal] + \
+                [[g(), x, g()] for x in scal] + [scal[0], "1", None]
+        elif isinstance(st.default, dict) or type(st).__name__ != "Setting":
+            continue
+        else:
+            raws = list(scal)
+        if not pointed and len(raws) > budget:
+            raws = rng.sample(raws, budget)
+        elif len(raws) > 3 * budget:
+            raws = raws[:budget] + rng.sample(raws[budget:], 2 * budget)
+        prevs = [r for r in raws if schema_of(st, r)[0] and canon(schema_of(st, r)[1]) != fresh[n]]
+        for raw in raws:
+            prev = copy.deepcopy(rng.choice(prevs)) if prevs and rng.random() < 0.7 else None
+            try:
+                dict(cs.items())[n].revertToDefault()
+                if prev is not None:
+                    cs[n] = prev
+            except Exception:
+                continue
+            before = state_map(cs)
+            case = {"setting": n, "raw": repr(raw)[:120], "previous": repr(cs[n])[:80]}
+            try:
+                cs[n] = copy.deepcopy(raw)
+                acc = True
+            except Exception:
+                acc = False
+            after = state_map(cs)
+            ctx.count("boundary values accepted on assignment" if acc else "boundary values refused on assignment")
+            if not acc:
+                if after != before:
+                    ctx.fail("assign-invalid-changes-state", "a refused value leaves the previous value in place", case,
+                             observed=[k for k in after if after[k] != before[k]][:5])
+            else:
+                moved = [k for k in after if k != n and after[k] != before[k]]
+                if moved:
+                    ctx.fail("assign-moves-other-setting", "assignment touches only the named setting", case, observed=moved[:5])
+                stored = dict(cs.items())[n].value
+                # the value now held must be one the setting admits: write the object, read it back
+                buf = io.StringIO()
+                try:
+                    cs.writeToYamlStream(buf, style="short")
+                    cs2 = settings.Settings()
+                    cs2.loadFromString(buf.getvalue(), handleInvalids=False)
+                    back = dict(cs2.items())[n].value
+                    if canon(back) != canon(stored):
+                        ctx.fail(f"accepted-value-reads-back-different:{n}", "an accepted value is written and read back equal",
+                                 {**case, "stored": repr(stored)[:80]}, observed=repr(back)[:80], expected=repr(stored)[:80])
+                except Exception as e:
+                    ctx.fail(f"accepted-value-cannot-be-read-back:{n}", "values that violate a setting's schema are rejected when assigned "
+                             "(the value now held is refused by the setting's own schema when its file is read)",
+                             {**case, "stored": repr(stored)[:80]}, observed=f"{type(e).__name__}: {e}"[:200])
+                # ... and idempotent under its own schema (re-assigning the stored value changes nothing)
+                ok2, v2 = schema_of(ref[n], copy.deepcopy(stored))
+                if not ok2 or canon(v2) != canon(stored):
+                    ctx.fail(f"accepted-value-violates-own-schema:{n}", "the value a setting holds satisfies the setting's own schema",
+                             {**case, "stored": repr(stored)[:80]}, observed="refused" if not ok2 else repr(v2)[:80])
+            # the same raw value arriving through a settings file (when YAML can carry it unchanged)
+            try:
+                rt = yaml_roundtrip(plain(raw))
+                carried = canon(rt) == canon(raw) and type(rt) is type(raw) or isinstance(raw, (list, str))
+                carried = carried and canon(rt) == canon(raw)
+            except Exception:
+                carried = False
+            if carried and not (isinstance(raw, float) and raw != raw):
+                dict(cs.items())[n].revertToDefault()
+                if prev is not None:
+                    cs[n] = prev
+                before = state_map(cs)
+                try:
+                    cs.loadFromString(yaml_text({n: plain(raw)}), handleInvalids=False)
+                    racc = True
+                except Exception:
+                    racc = False
+                after = state_map(cs)
+                ctx.count("boundary values accepted on read" if racc else "boundary values refused on read")
+                if racc != acc:
+                    ctx.fail("assign-and-read-disagree", "a value is rejected when assigned exactly when it is rejected when read",
+                             case, observed={"assigned": acc, "read": racc})
+                if not racc and after != before:
+                    ctx.fail("read-invalid-changes-value", "a refused value leaves the previous value in place", case,
+                             observed=[k for k in after if after[k] != before[k]][:5])
+                if racc and acc and after[n] != canon(stored):
+                    ctx.fail("read-stores-other-value", "reading stores the value assignment stores", case,
+                             observed=repr(dict(cs.items())[n].value)[:80], expected=repr(stored)[:80])
+            ctx.case(("boundary", n, type(raw).__name__, repr(raw)), nontrivial=True,
+                     sample=case if len(ctx.samples) < 8 and pointed and not acc else None)
+        dict(cs.items())[n].revertToDefault()
+
+
+# --------------------------------------------------------------------------- write the COPY
+def at_default_check(ctx, cs, case, who):
+    """`Setting.isDefault()` / `offDefault` must be the comparison of value and default, on every object."""
+    for n, s_ in cs.items():
+        really = canon(s_.value) == canon(s_.default)
+        try:
+            said, off = bool(s_.isDefault()), bool(s_.offDefault)
+        except Exception as e:
+            ctx.fail("isdefault-raises", "asking whether a setting is at its default works", {**case, "setting": n, "object": who},
+                     observed=f"{type(e).__name__}: {e}"[:200])
+            continue
+        if said != really or off == really:
+            ctx.fail(f"isdefault-disagrees-with-value:{who}", "a setting is at its default exactly when its value equals its default "
+                     "(on originals and on every kind of copy)", {**case, "setting": n}, observed={"isDefault": said, "offDefault": off,
+                     "value": repr(s_.value)[:80], "default": repr(s_.default)[:80]})
+
+
+def write_read_object(ctx, m, ref, cs, styles, user, case, exempt=()):
+    """Write the settings object `cs` (the model's object A) in each style, read it back into a fresh object: key set per
+    style, every value equal, nothing invalid. `exempt`: names whose DEFAULT was changed on this object only."""
+    from armi import settings
+    if m is not None:
+        I = m.I
+        m.send("off", off_list(cs, I), case)
+    for style in styles:
+        original = state_map(cs)
+        offn = [n for n, s_ in cs.items() if canon(s_.value) != canon(s_.default)]
+        towrite = keyset_expected(cs, style, user)
+        if m is not None:
+            declare_tables(m, cs, ref, [n for n in towrite if n in ref and (n != "versions" or n in offn or style == "full"
+                                                                            or (style == "medium" and n in user))])
+            for n in towrite:
+                if n not in ref:       # settings added by modified(): plain values, dumped as they are
+                    v = dict(cs.items())[n].value
+                    m.send(f"dmp {n} {I(v)} {I(yaml_roundtrip(plain(v)))}", "ok")
+        c2 = {**case, "style": style, "user": list(user)[:10]}
+        buf = io.StringIO()
+        try:
+            cs.writeToYamlStream(buf, style=style, settingsSetByUser=list(user))
+        except Exception as e:
+            ctx.fail(f"write-raises:{style}", "a valid assignment can be written", c2, observed=f"{type(e).__name__}: {e}"[:200])
+            if m is not None:
+                m.send(f"write {style} [{','.join(user)}]", None)
+            continue
+        text = buf.getvalue()
+        doc = parse_doc(text)
+        if m is not None:
+            m.send(f"write {style} [{','.join(user)}]", "[" + ",".join(f"{k}={I(v)}" for k, v in doc.items()) + "]", c2)
+        keys = list(doc.keys())
+        if keys != towrite:
+            miss = [k for k in towrite if k not in keys]
+            extra = [k for k in keys if k not in towrite]
+            ctx.fail(f"write-{style}-keyset" if (miss or extra) else f"write-{style}-order",
+                     {"short": "short style omits exactly the settings at their default",
+                      "medium": "medium style writes the changed settings and those of the user's file",
+                      "full": "full style writes every setting"}[style], c2,
+                     observed={"missing": miss[:5], "extra": extra[:5]}, expected=towrite[:8])
+        now = state_map(cs)
+        moved = [k for k in now if now[k] != original[k] and k != "versions"]
+        if moved:
+            ctx.fail("write-changes-settings", "writing leaves the settings object as it was", c2, observed=moved[:5])
+        cs2 = settings.Settings()
+        try:
+            rd = cs2.loadFromString(text, handleInvalids=False)
+            inv = sorted(rd.invalidSettings)
+        except Exception as e:
+            ctx.fail(f"roundtrip-read-raises:{_culprit(ref, doc)}", "a written settings file reads back", c2,
+                     observed=f"{type(e).__name__}: {e}"[:300])
+            continue
+        got = state_map(cs2)
+        for k, c in original.items():
+            if k == "versions" or k in exempt or k not in got:
+                continue
+            if got[k] != c:
+                was_default = canon(dict(cs.items())[k].default) == c
+                ctx.fail(f"roundtrip-default-moved:{style}" if was_default else f"roundtrip-value-differs:{style}:{k}",
+                         "settings left at default stay at default" if was_default else
+                         "every setting has an equal value after write/read (also the values a copy inherited)", {**c2, "setting": k},
+                         observed=repr(dict(cs2.items())[k].value)[:200], expected=repr(dict(cs.items())[k].value)[:200])
+        if [x for x in inv if x in ref]:
+            ctx.fail("roundtrip-invalid-names", "a written file names only defined settings", c2, observed=inv[:5])
+        ctx.count(f"copies written and read back ({style})")
+
+
+def run_copies(ctx, cs0, ref):
+    """Multi-step histories: assign / load non-default values, derive a copy (modified, duplicate, deepcopy, pickle; copies
+    of copies; revertToDefault / changeDefault before and after copying), WRITE THE COPY in each style and read it back."""
+    import pickle
+    from armi import settings
+    from armi.settings.setting import Default
+    rng = ctx.rng
+    names = [n for n, _ in cs0.items()]
+    plugin_names = sorted(set(names) - {s_.name for s_ in __import__("armi.settings.fwSettings", fromlist=["x"]).getFrameworkSettings()})
+    nested = ["cycles", "crossSectionControl"]
+    m = Model(ctx)
+    define_registry(m, cs0)
+    m.send("base", "ok")
+    I = m.I
+    base_defaults = state_map(cs0)
+
+    def valid_value(n):
+        c = [r for r in candidates(n, ref[n], rng, 4) if schema_of(ref[n], r)[0] and canon(schema_of(ref[n], r)[1]) != base_defaults[n]]
+        return copy.deepcopy(rng.choice(c)) if c else None
+
+    for t in range(ctx.pick(36, 400)):
+        cs = settings.Settings()
+        m.send("clr", "ok")
+        hist, script = [], []
+        chosen = rng.sample(names, rng.randint(1, 5)) + [rng.choice(nested)] + ([rng.choice(plugin_names)] if plugin_names else [])
+        chosen = [n for n in dict.fromkeys(chosen) if n not in ("userPlugins",) + VERBOSITY_FAMILY]
+        loaded = {}
+        for n in chosen:
+            raw = valid_value(n)
+            if raw is None:
+                continue
+            ok, v = schema_of(ref[n], raw)
+            if rng.random() < 0.3 and n != "versions":
+                loaded[n] = raw          # arrives through a settings file
+                continue
+            m.send(f"sch {n} {I(raw)} {I(v)}", "ok")
+            cs[n] = copy.deepcopy(raw)
+            m.send(f"set {n} {I(raw)}", "ok")
+            hist.append(("set", n, repr(raw)[:80]))
+            script.append(["set", n, repr(raw)])
+        if loaded:
+            text = yaml_text({k: plain(v) for k, v in loaded.items()})
+            doc = parse_doc(text)
+            for k, v in doc.items():
+                ok, sv = schema_of(ref[k], v)
+                m.send(f"sch {k} {I(v)} {I(sv) if ok else 'x'}", "ok")
+            try:
+                cs.loadFromString(text, handleInvalids=False)
+                st = "ok inv=[]"
+            except Exception:
+                st = "reject inv=[]"
+            m.send("read [" + ",".join(f"{k}={I(v)}" for k, v in doc.items()) + "]", st, {"loaded": repr(loaded)[:200]})
+            hist.append(("load", sorted(loaded)))
+            script.append(["load", {k: repr(v) for k, v in loaded.items()}])
+        case = {"history": hist, "script": script}
+
+        def snap(**kw):
+            return {"history": list(hist), "script": [list(x) for x in script], **kw}
+        exempt = set()
+        obj, who = cs, "original"
+        depth = rng.choice([1, 1, 2, 3])
+        for d in range(depth):
+            # before copying: revert / change a default on the current object
+            r = rng.random()
+            cur = [n for n, s_ in obj.items() if canon(s_.value) != canon(s_.default) and n != "versions"]
+            if r < 0.25 and cur:
+                n = rng.choice(cur)
+                dict(obj.items())[n].revertToDefault()
+                m.send(f"revert {n}", "ok")
+                hist.append(("revert", n))
+                script.append(["revert", n])
+            elif r < 0.45:
+                n = rng.choice([x for x in names if x not in ("versions", "userPlugins") + VERBOSITY_FAMILY])
+                raw = valid_value(n)
+                if raw is not None:
+                    ok, v = schema_of(ref[n], raw)
+                    m.send(f"sch {n} {I(raw)} {I(v)}", "ok")
+                    dict(obj.items())[n].changeDefault(Default(copy.deepcopy(raw), n))
+                    m.send(f"chdef {n} {I(raw)}", "ok", case)
+                    hist.append(("changeDefault", n, repr(raw)[:60]))
+                    script.append(["chdef", n, repr(raw)])
+            before = state_map(obj)
+            kinds = ["modified", "duplicate", "deepcopy", "pickle", "modified"]
+            how = kinds[t % 5] if (d == 0 and t < 10) else rng.choice(kinds)      # every kind of copy on every run
+            news, tok = {}, []
+            if how == "modified":
+                for n in rng.sample(names, rng.randint(0, 2)):
+                    raw = valid_value(n)
+                    if raw is not None and n not in ("userPlugins",) + VERBOSITY_FAMILY:
+                        news[n] = raw
+                        ok, v = schema_of(ref[n], raw)
+                        m.send(f"sch {n} {I(raw)} {I(v)}", "ok")
+                        tok.append(f"{n}={I(raw)}")
+                if rng.random() < 0.3:
+                    # a setting the application does not define: later copies carry it through __setstate__ whole
+                    k = rng.choice(["brandNew", "anotherNew", "zNew"])
+                    if k not in dict(obj.items()):
+                        news[k] = rng.choice([3, "x", [1, 2], 2.5])
+                        tok.append(f"{k}={I(news[k])}")
+            try:
+                if how == "modified":
+                    cp = obj.modified(newSettings=copy.deepcopy(news))
+                elif how == "duplicate":
+                    cp = obj.duplicate()
+                elif how == "deepcopy":
+                    cp = copy.deepcopy(obj)
+                else:
+                    cp = pickle.loads(pickle.dumps(obj))
+            except Exception as e:
+                ctx.fail(f"copy-raises:{how}", "a settings object can be copied", snap(how=how), observed=f"{type(e).__name__}: {e}"[:200])
+                break
+            hist.append((how, {k: repr(v)[:60] for k, v in news.items()}))
+            script.append(["copy", how, {k: repr(v) for k, v in news.items()}])
+            m.send("modified [" + ",".join(tok) + "]" if how == "modified" else "dup", "ok", case)
+            if state_map(obj) != before:
+                ctx.fail("modified-affects-original", "modified copies do not affect the original", snap(how=how))
+            # the copy holds what the original held (plus the modifications)
+            want = dict(before)
+            for n, raw in news.items():
+                want[n] = canon(schema_of(ref[n], raw)[1]) if n in ref else canon(raw)
+            gotc = state_map(cp)
+            diff = [k for k in want if gotc.get(k) != want[k]]
+            if diff:
+                ctx.fail(f"copy-loses-value:{how}", "a copy holds the values of its original (and the requested modifications)",
+                         snap(how=how), observed={k: repr(dict(cp.items())[k].value)[:80] for k in diff[:4]})
+            at_default_check(ctx, obj, snap(), who)
+            m.send("offB", off_list(cp, I), case)
+            m.send("swap", "ok")
+            m.send("names", "[" + ",".join(n for n, _ in cp.items()) + "]", case)
+            if any(n not in ref for n, _ in cp.items()):
+                ctx.count("copies carrying settings the application does not define")
+            obj, who = cp, f"copy:{how}"
+            exempt = set()       # a copy is rebuilt from the application's definitions: its defaults are the application's
+            at_default_check(ctx, obj, snap(), who)
+            # after copying: an assignment, a revert or a default change on the copy
+            r = rng.random()
+            if r < 0.3:
+                n = rng.choice([x for x in names if x not in ("versions", "userPlugins") + VERBOSITY_FAMILY])
+                raw = valid_value(n)
+                if raw is not None:
+                    ok, v = schema_of(ref[n], raw)
+                    m.send(f"sch {n} {I(raw)} {I(v)}", "ok")
+                    obj[n] = copy.deepcopy(raw)
+                    m.send(f"set {n} {I(raw)}", "ok", case)
+                    hist.append(("set-on-copy", n, repr(raw)[:60]))
+                    script.append(["set", n, repr(raw)])
+            elif r < 0.36 and d < depth - 1:
+                obj.revertToDefaults()          # every setting at once; the next copy is taken from an all-default object
+                m.send("reset", "ok")
+                hist.append(("revertToDefaults-on-copy",))
+                script.append(["revertall"])
+            elif r < 0.45:
+                cur = [n for n, s_ in obj.items() if canon(s_.value) != canon(s_.default) and n != "versions"]
+                if cur:
+                    n = rng.choice(cur)
+                    dict(obj.items())[n].revertToDefault()
+                    m.send(f"revert {n}", "ok")
+                    hist.append(("revert-on-copy", n))
+                    script.append(["revert", n])
+            elif r < 0.55 and d == depth - 1:
+                n = rng.choice([x for x in names if x not in ("versions", "userPlugins") + VERBOSITY_FAMILY])
+                raw = valid_value(n)
+                if raw is not None:
+                    ok, v = schema_of(ref[n], raw)
+                    m.send(f"sch {n} {I(raw)} {I(v)}", "ok")
+                    dict(obj.items())[n].changeDefault(Default(copy.deepcopy(raw), n))
+                    m.send(f"chdef {n} {I(raw)}", "ok", case)
+                    hist.append(("changeDefault-on-copy", n, repr(raw)[:60]))
+                    script.append(["chdef", n, repr(raw)])
+                    exempt.add(n)
+            m.send(f"isdef {hist[0][1] if hist and hist[0][0] == 'set' else 'nCycles'}",
+                   "T" if canon(dict(obj.items())[hist[0][1] if hist and hist[0][0] == 'set' else 'nCycles'].value) ==
+                   canon(dict(obj.items())[hist[0][1] if hist and hist[0][0] == 'set' else 'nCycles'].default) else "F", case)
+            at_default_check(ctx, obj, snap(), who)
+            styles = ("short", "medium", "full") if (t + d) % 4 == 0 else ("short", "medium") if t % 2 else ("short",)
+            write_read_object(ctx, m, ref, obj, styles, rng.sample(names, rng.randint(0, 4)), snap(object=who), exempt)
+            ctx.count(f"copies derived ({how}, depth {d + 1})")
+        inherited = [h for h in hist if h[0] in ("set", "load")]
+        ctx.case(("copies", t, repr(hist)), nontrivial=bool(inherited), sample={"history": [list(map(str, h)) for h in hist][:8]} if t < 2 else None)
+        if len(m.req) > 40000:
+            m.flush("Settings model vs copies written and read back")
+            m = _renew(ctx, m, cs0)
+    m.flush("Settings model vs copies written and read back")
+
+
 def run_cycles(ctx, cs0, ref):
     """The nested `cycles` setting: every combination of its input groups per cycle entry, derived from the schema's own
     keys. Exactly one of {cumulative days}, {step days}, {cycle length and/or burn steps} is valid (the rule the setting
@@ -1493,6 +2037,8 @@ def run(ctx):
         hypothesis_evidence(ctx, registry)
         run_reader(ctx, cs0, ref)
         run_modified(ctx, cs0, ref)
+        run_copies(ctx, cs0, ref)
+        run_boundaries(ctx, cs0, ref)
         run_objects(ctx, ref)
         run_cycles(ctx, cs0, ref)
         run_flaglist(ctx)
@@ -1533,11 +2079,56 @@ def search(ctx, disagreements, broken):
     return found
 
 
+def replay_script(ctx, payload, case):
+    """Re-run a recorded history (assign / load / revert / changeDefault / copies) and evaluate the copy oracles after every copy."""
+    import pickle
+    from armi import settings
+    from armi.settings.setting import Default
+    lit = lambda r: eval(r, {"__builtins__": {}}, {"inf": float("inf"), "nan": float("nan")})  # noqa: S307 - literals written by this harness
+    sub = common.Ctx(ctx.prop, ctx.tier, ctx.seed)
+    with mute(), common.scratch_dir("c17r-"):
+        ref = dict(settings.Settings().items())
+        obj = settings.Settings()
+        who = "original"
+        for op in case["script"]:
+            try:
+                if op[0] == "set":
+                    obj[op[1]] = lit(op[2])
+                elif op[0] == "load":
+                    obj.loadFromString(yaml_text({k: lit(v) for k, v in op[1].items()}), handleInvalids=False)
+                elif op[0] == "revert":
+                    dict(obj.items())[op[1]].revertToDefault()
+                elif op[0] == "revertall":
+                    obj.revertToDefaults()
+                elif op[0] == "chdef":
+                    dict(obj.items())[op[1]].changeDefault(Default(lit(op[2]), op[1]))
+                elif op[0] == "copy":
+                    how = op[1]
+                    before = state_map(obj)
+                    obj2 = obj.modified(newSettings={k: lit(v) for k, v in op[2].items()}) if how == "modified" else obj.duplicate() if how == "duplicate" \
+                        else copy.deepcopy(obj) if how == "deepcopy" else pickle.loads(pickle.dumps(obj))
+                    if state_map(obj) != before:
+                        sub.fail("modified-affects-original", "modified copies do not affect the original", {"how": how})
+                    lost = [k for k in before if k not in op[2] and state_map(obj2).get(k) != before[k]]
+                    if lost:
+                        sub.fail(f"copy-loses-value:{how}", "a copy holds the values of its original", {"how": how}, observed=lost[:5])
+                    obj, who = obj2, f"copy:{how}"
+                    at_default_check(sub, obj, {}, who)
+                    changed = {n for n, s_ in obj.items() if canon(s_.default) != canon(ref[n].default)} if all(n in ref for n, _ in obj.items()) else set()
+                    write_read_object(sub, None, ref, obj, ("short", "medium", "full"), [], {"object": who}, exempt=changed)
+            except Exception as e:
+                sub.fail("replay-step-raises", "the recorded history runs", {"op": op}, observed=f"{type(e).__name__}: {e}"[:200])
+    known = {f["key"] for f in common.load_findings()["finding"] if f["property"] == ctx.prop}
+    return [{"key": f.key, "case": f.case, "observed": f.observed, "expected": f.expected} for f in sub.failures if f.key not in known][:5]
+
+
 def replay(ctx, payload):
     """Re-evaluate a recorded failing input on the real code."""
     from armi import settings
     case = payload.get("case") or {}
     res = []
+    if case.get("script"):
+        return replay_script(ctx, payload, case)
     with mute(), common.scratch_dir("c17r-"):
         cs = settings.Settings()
         assigns = case.get("assigns") or ([(case["setting"], case["raw"])] if "raw" in case and "setting" in case else [])
